@@ -502,6 +502,9 @@ def run(facts, out, all_bodies=False):
                 out.add('WR', b.path, 'call:' + nm, loc_of(t['sp']), ok,
                         '' if ok else 'encoder uses `Write::%s` (short writes / Interrupted are not handled by it)' % nm,
                         {'callee': c['full']})
+    # ---- WB: a by-value writer is never dropped on an Ok path without a checked flush
+    for b in enc_bodies:
+        check_writer_drop(b, out)
     # ---- FL flush must-pass-through in Beatmap::encode
     if not all_bodies:
         enc_body = facts.body('encode::<impl beatmap::Beatmap>::encode')
@@ -616,3 +619,57 @@ def ret_defs_via(body, via_bb):
                 IN2[s] = new
                 work.append(s)
     return res
+
+
+def check_writer_drop(body, out):
+    """WB: locals that are written through `std::io::Write` by value (not behind a reference) may
+    own an internal buffer (BufWriter, generic W): every normal-path drop that can be followed by an
+    Ok return must get its Ok value from `Write::flush` on that very local."""
+    from facts import resolve_ref
+    writers = set()
+    for bb, t in body.calls():
+        c = callee_of(t)
+        if c and c.get('trait') == 'std::io::Write' and t['args']:
+            l0 = op_local(t['args'][0])
+            pl = resolve_ref(body, l0) if l0 is not None else None
+            if pl is not None and not pl['p']:
+                ty = body.locals[pl['l']]
+                if ty.get('ref') is None and not ty['s'].startswith('&'):
+                    writers.add(pl['l'])
+    # by-value writer parameters / locals of buffering types even if only passed on
+    for l, ty in enumerate(body.locals):
+        if ty['s'].startswith('std::io::BufWriter<') or ty['s'].startswith('std::io::LineWriter<'):
+            writers.add(l)
+    for w in sorted(writers):
+        for bi, blk in enumerate(body.blocks):
+            if blk.get('cleanup'):
+                continue
+            t = blk['term']
+            if t['k'] != 'drop' or t['pl']['p'] or t['pl']['l'] != w:
+                continue
+            bad = None
+            for r, defs in ret_defs_via(body, bi).items():
+                for d in defs:
+                    if d == 'entry':
+                        continue
+                    bb2, si = d
+                    if si == 'term':
+                        t2 = body.term(bb2)
+                        c2 = callee_of(t2)
+                        if c2 and c2.get('trait') == 'std::ops::FromResidual':
+                            continue
+                        if c2 and c2.get('trait') == 'std::io::Write' and c2['name'] == 'flush':
+                            l0 = op_local(t2['args'][0])
+                            pl = resolve_ref(body, l0) if l0 is not None else None
+                            if pl is not None and not pl['p'] and pl['l'] == w:
+                                continue
+                        bad = loc_of(t2['sp'])
+                    else:
+                        s = body.blocks[bb2]['st'][si]
+                        if s['rv']['k'] == 'aggr' and s['rv'].get('variant') == 'Err':
+                            continue
+                        bad = loc_of(s['sp'])
+            out.add('WB', body.path, 'writer-drop:_%d' % w, loc_of(t['sp']), bad is None,
+                    '' if bad is None else ('a writer held by value (it may buffer internally) is dropped on a path that '
+                                            'returns Ok (value set at %s) without a checked flush on it: a write error at '
+                                            'drop time is lost and encode reports success') % bad)
